@@ -165,7 +165,9 @@ def run_climate(case, ctx):
     const_sig = [{}, {(0, 0): 1}, {(0, 0): 2, (0, 1): 1}, {(0, 1): 1}][int(rng.integers(4))]
     out_sig = [(pool[i], int(rng.integers(1, 3)) * future) for i in rng.choice(3, size=int(rng.integers(1, 4)), replace=False)]
     torus = (True, False)
-    key = {"kind": "climate", "lon": n_lon, "lat": n_lat, "past": past, "future": future, "dyn": dyn, "const": {str(t): c for t, c in const_sig.items()}, "out": out_sig}
+    # output_is_torus is a constructor argument with default (True, False): other values in one case of two
+    out_torus = [(True, False), (False, False), (True, True), (False, True)][int(case["i"]) % 4] if case["i"] % 2 else (True, False)
+    key = {"kind": "climate", "output_is_torus": out_torus, "lon": n_lon, "lat": n_lat, "past": past, "future": future, "dyn": dyn, "const": {str(t): c for t, c in const_sig.items()}, "out": out_sig}
     viols = []
     try:
         blocks = {}
@@ -182,7 +184,7 @@ def run_climate(case, ctx):
                 base = sum(jnp.mean(v) for v in z.values())
                 return geom.MultiImage({t: base + jnp.arange(c * n, dtype=jnp.float32).reshape((c, n)) for t, c in sig1d}, 1, (True,)), aux_data
 
-        model = models.Climate1D(Inner1D(), out_keys, past, future, (n_lon, n_lat), dict(const_sig), torus)
+        model = models.Climate1D(Inner1D(), out_keys, past, future, (n_lon, n_lat), dict(const_sig), out_torus) if out_torus != (True, False) or case["i"] % 4 == 0 else models.Climate1D(Inner1D(), out_keys, past, future, (n_lon, n_lat), dict(const_sig))
         y = model(x)[0]
         want_keys = [t for t, _ in out_sig]
         if list(y.keys()) != want_keys:
@@ -191,8 +193,8 @@ def run_climate(case, ctx):
             for t, c in out_sig:
                 if tuple(y[t].shape) != (c, n_lon, n_lat) + (2,) * t[0]:
                     viols.append(viol("model-output-shape", f"Climate1D block {t} has shape {tuple(y[t].shape)}, requested {(c, n_lon, n_lat) + (2,) * t[0]}; {key}"))
-            if y.D != 2 or tuple(y.is_torus) != torus:
-                viols.append(viol("model-output-metadata", f"Climate1D output D/is_torus {y.D}/{y.is_torus}; {key}"))
+            if y.D != 2 or tuple(y.is_torus) != out_torus:
+                viols.append(viol("model-output-metadata", f"Climate1D output D/is_torus {y.D}/{y.is_torus}, requested 2/{out_torus}; {key}"))
     except Exception as e:
         import traceback
 
@@ -346,12 +348,34 @@ def run_wrapper(case, ctx):
         def __call__(self, arr):
             return jnp.take(arr, jnp.asarray(self.perm), axis=arr.ndim - D - 1)
 
-    key = {"D": D, "sig": sig, "out_sig": out_sig, "sp": sp, "mode": mode, "lead": lead}
+    class InnerAux(eqx.Module):
+        # a vanilla model with state (pass_aux_data=True): takes (array, aux) and hands back (array, new aux)
+        perm: tuple = eqx.field(static=True)
+
+        def __call__(self, arr, aux):
+            return jnp.take(arr, jnp.asarray(self.perm), axis=arr.ndim - D - 1), {"calls": aux["calls"] + 1}
+
+    # the toroidal structure of the output is an argument of the wrapper (output_is_torus), not copied from the input:
+    # in one case of three it differs from the input's flags, in the bool form in one of six
+    out_torus = torus
+    if case["i"] % 3 == 1:
+        out_torus = tuple(not f for f in torus) if case["i"] % 6 == 1 else bool(case["i"] % 4 == 0)
+    want_torus = (out_torus,) * D if isinstance(out_torus, bool) else tuple(out_torus)
+    pass_aux = case["i"] % 2 == 1
+    key = {"D": D, "sig": sig, "out_sig": out_sig, "sp": sp, "mode": mode, "lead": lead, "pass_aux_data": pass_aux, "output_is_torus": out_torus}
     viols = []
     _struct.take()
     try:
-        wrapper = models.ModelWrapper(D, Inner(tuple(int(v) for v in perm)), mlgen.signature(out_sig), torus)
-        y = wrapper(x)[0]
+        if pass_aux:
+            wrapper = models.ModelWrapper(D, InnerAux(tuple(int(v) for v in perm)), mlgen.signature(out_sig), out_torus, pass_aux_data=True)
+            y, aux_out = wrapper(x, {"calls": 4})
+            if not isinstance(aux_out, dict) or int(aux_out.get("calls", -1)) != 5:
+                viols.append(viol("wrapper-aux-data", f"ModelWrapper(pass_aux_data=True): the inner model's new state {{'calls': 5}} came back as {aux_out!r}; {key}"))
+        else:
+            wrapper = models.ModelWrapper(D, Inner(tuple(int(v) for v in perm)), mlgen.signature(out_sig), out_torus)
+            y, aux_out = wrapper(x, "state-not-for-the-inner-model")
+            if aux_out != "state-not-for-the-inner-model":
+                viols.append(viol("wrapper-aux-data", f"ModelWrapper(pass_aux_data=False) changed the aux_data it was handed: {aux_out!r}; {key}"))
         # the models flatten their input in sorted type order (what jit/vmap produce); outputs are assigned in output_keys order
         flat = rmisc.to_scalar_layout({t: blocks[t] for t in sorted(blocks)}, D, 1 + len(lead))
         want = rmisc.from_scalar_layout(np.take(flat, perm, axis=len(lead)), out_sig, D, 1 + len(lead))
@@ -364,8 +388,8 @@ def run_wrapper(case, ctx):
                 if g.shape != want[t].shape or not np.array_equal(g, want[t]):
                     viols.append(viol("conventional-relayout-position", f"component of type {t} landed at another position after flatten/unflatten (mode {mode}); {key}"))
                     break
-        if y.D != D or tuple(y.is_torus) != torus:
-            viols.append(viol("wrapper-metadata", "D/is_torus changed"))
+        if y.D != D or tuple(y.is_torus) != want_torus:
+            viols.append(viol("wrapper-metadata", f"D/is_torus {y.D}/{tuple(y.is_torus)}, requested {D}/{want_torus}; {key}"))
     except Exception as e:
         import traceback
 
